@@ -165,12 +165,13 @@ def main():
                     # rows are independent; extra centres: far away (empty window) and fc < 1e-6 -> 0
                     if len(pop) >= 3 and (len(pop) + int(fc * 10)) % 5 == 0:
                         alone = both(name, f, spec[1:2], fcs, bw)[0, 0]
-                        if alone != got[1]:
+                        # (to rounding: a batched implementation may sum in another order than a single-row call)
+                        if not np.isclose(alone, got[1], rtol=1e-12, atol=0.0):
                             run.violation(f"rows:{name}", f"{name}: row smoothed alone {alone} differs from the same row in a stack {got[1]}",
                                           dict(kind="smooth-rows", op=name, f=f.tolist(), spec=spec.tolist(), fc=fc, bw=bw))
                         far = fc * 1e3 if not name.startswith("linear") and name != "parzen" else fc + 1e4
                         ext = both(name, f, spec, np.array([fc, 1e-7, far]), bw)
-                        if not (np.array_equal(ext[:, 0], got) and not ext[:, 1].any() and (name == "parzen" or not ext[:, 2].any())):
+                        if not (np.allclose(ext[:, 0], got, rtol=1e-12, atol=0.0) and not ext[:, 1].any() and (name == "parzen" or not ext[:, 2].any())):
                             run.violation(f"centres:{name}", f"{name}: result at fc depends on the other centres, or a centre without samples / below 1e-6 Hz is not 0: {ext.tolist()}",
                                           dict(kind="smooth-centres", op=name, f=f.tolist(), spec=spec.tolist(), fc=fc, bw=bw))
 
@@ -296,8 +297,8 @@ def main():
         for oname, idx in (("ascending", np.arange(17)), ("descending", np.arange(17)[::-1]), ("shuffled", rng.permutation(17)),
                            ("two-ranges", np.r_[8:17, 0:8]), ("repeated", np.r_[0:17:2, 0:17:2])):
             got = both(name, fpos, rows, base_fcs[idx], bw)
-            if not np.array_equal(got, single[:, idx]):
-                bad = np.argwhere(got != single[:, idx])[0]
+            if not np.allclose(got, single[:, idx], rtol=1e-12, atol=0.0):
+                bad = np.argwhere(~np.isclose(got, single[:, idx], rtol=1e-12, atol=0.0))[0]
                 run.violation(f"vector:{name}:{oname}", f"{name}(bandwidth={bw}) with the centres in {oname} order: row {bad[0]} column {bad[1]} "
                               f"(fc={base_fcs[idx][bad[1]]:.4f}) is {got[bad[0], bad[1]]}, the same centre alone gives {single[bad[0], idx[bad[1]]]}",
                               dict(kind="smooth-vector2", op=name, bw=bw, order=oname))
